@@ -268,6 +268,12 @@ pub struct Config {
     pub samples: usize,
     pub set_cap: usize,
     pub per_class: u64,
+    /// For harnesses whose environment is partly the real kernel / a runtime's helper thread: when
+    /// the two runs of the determinism self-check differ AND one of them violates the property,
+    /// the violation is what gets reported (a change to the code under test may make its behaviour
+    /// depend on timing; that must not turn a violation into a machinery error).  Two runs that
+    /// differ without any violation remain a machinery error.
+    pub violation_beats_nondeterminism: bool,
 }
 impl Default for Config {
     fn default() -> Self {
@@ -280,6 +286,7 @@ impl Default for Config {
             samples: 3,
             set_cap: 40_000_000,
             per_class: 50,
+            violation_beats_nondeterminism: false,
         }
     }
 }
@@ -545,7 +552,20 @@ fn worker<H: Harness + ?Sized>(sh: &Shared<'_, H>) -> Local {
                     (Err(a), Err(b)) => a == b,
                     _ => false,
                 };
-            if !same {
+            let violates = |x: &ExecResult| matches!(&x.verdict, Ok(Verdict::Fail(_))) || matches!(&x.verdict, Err(m) if !m.starts_with("BUG: ")) || !x.soft.is_empty();
+            if !same && sh.cfg.violation_beats_nondeterminism && (violates(&r) || violates(&r2)) {
+                if !violates(&r) {
+                    // report what the second run showed
+                    for v in &r2.soft {
+                        record_violation(sh, &mut loc, v.clone(), &r2);
+                    }
+                    match &r2.verdict {
+                        Ok(Verdict::Fail(v)) => record_violation(sh, &mut loc, v.clone(), &r2),
+                        Err(msg) if !msg.starts_with("BUG: ") => record_violation(sh, &mut loc, Violation { class: panic_class(msg), detail: msg.clone() }, &r2),
+                        _ => {}
+                    }
+                }
+            } else if !same {
                 loc.errors.push(format!("nondeterministic harness: two runs of prefix {:?} differ", values(&r.trace[..plen.min(r.trace.len())])));
                 sh.stop.store(true, Ordering::Relaxed);
             }
